@@ -24,7 +24,8 @@ From SV Require Import Model.Pipeline Proofs.PipelineProofs Proofs.PipelineWitne
    (so: whatever was received before, on this or any other connection) and EVERY byte string presented as a record:
    the per-record pipeline parse -> extract -> route -> select metric key set -> transform -> serialize -> pack
    returns normally - passed (one complete event per output) or dropped - never a panic; the invariant is kept; a
-   malformed record is counted dropped exactly once, with its length, and changes nothing else; every other record is
+   malformed record is counted dropped exactly once, with its length, and changes nothing else; a record dropped by an
+   extraction transform is counted dropped (not passed) once and leaves the shared state alone; every other record is
    counted passed exactly once. *)
 Theorem C07_pipeline_total :
   forall (O : T.oracles) cfg g c now clk (input : bytes),
@@ -37,6 +38,7 @@ Theorem C07_pipeline_total :
         fst (Ps.parse (c_parser cfg) (cs_input c) input) = Ok None /\
         SyslogSpec.counted_dropped (cs_input c) (cs_input c') (length input) /\
         g' = g /\ cs_extract c' = cs_extract c /\ cs_ecnt c' = cs_ecnt c /\ cs_local c' = cs_local c
+    | RDropExtract => counted_dropped_instead (cs_input c) (cs_input c') (length input) /\ g' = g
     | _ => SyslogSpec.counted_passed (cs_input c) (cs_input c') (length input)
     end.
 Proof. exact process_record_total. Qed.
@@ -128,15 +130,19 @@ Proof. exact neighbours_unchanged_lemma. Qed.
 Print Assumptions C07_neighbours_unchanged.
 
 (* 3'. the same for record sequences handed to the pipeline directly (no framing side conditions): removing the
-   malformed records from ANY sequence changes nothing but the input counters *)
+   malformed records from ANY sequence changes nothing but the input counters ([cnt_rel k kb A B]: passed and overflow
+   equal, A counts k more dropped records and kb more dropped bytes than B) *)
 Theorem C07_malformed_records_only_counted :
-  forall (O : T.oracles) cfg (inputs : list bytes) g c now clk g1 c1 rs cnt,
+  forall (O : T.oracles) cfg (inputs : list bytes) g c now clk g1 c1 rs cnt k kb,
   ParserProofs.cfg_ok (c_parser cfg) ->
   process_records O cfg g c now clk inputs = Ok (g1, c1, rs) ->
+  cnt_rel k kb (cs_input c) cnt ->
   exists cnt',
     process_records O cfg g (with_input c cnt) now clk (filter (fun x => negb (malformed cfg x)) inputs)
     = Ok (g1, with_input c1 cnt', filter (fun r => negb (is_drop_parse r)) rs) /\
-    map is_drop_parse rs = map (malformed cfg) inputs.
+    map is_drop_parse rs = map (malformed cfg) inputs /\
+    cnt_rel (k + N.of_nat (length (filter (malformed cfg) inputs)))
+            (kb + SyslogSpec.sum_lengths (filter (malformed cfg) inputs)) (cs_input c1) cnt'.
 Proof. exact process_records_filter. Qed.
 Print Assumptions C07_malformed_records_only_counted.
 
